@@ -3,6 +3,8 @@ package props
 import (
 	"fmt"
 	"go/ast"
+	"go/token"
+	"go/types"
 	"strings"
 
 	"octoverif/core"
@@ -682,7 +684,91 @@ func checkSumUpperBoundArity(c *core.Ctx) {
 			}
 			return true
 		})
+		if k.kind == "Struct" {
+			checkSumKeepsFieldOrder(c, is, arm)
+		}
 		c.Decide(!strict || guarded, "UB", key, arm.Pos(), 1, "merged only when the arities agree",
 			fmt.Sprintf("TypeSum merges two %ss of different arity / field sets into one wider %s (missing positions become nullable), but Type.Is requires equal arity: neither operand Is the sum, so TypeSum is not an upper bound for them", k.kind, k.kind))
 	}
+}
+
+// checkSumKeepsFieldOrder (UB): Type.Is matches object fields by position (the i-th names must be equal), and values
+// carry no names at all. If TypeSum's object arm collects the fields in a map and emits them sorted by name, two
+// operands with the same fields in the same, non-alphabetical order sum to a re-ordered object neither of them Is —
+// and fields with equal (e.g. empty) names collapse into one. The arm therefore needs a positional path, taken when the
+// name sequences agree, that returns before anything is re-ordered.
+func checkSumKeepsFieldOrder(c *core.Ctx, is *core.FuncRef, arm *ast.IfStmt) {
+	key := "octosql.TypeSum/Struct + Struct with the same field names"
+	positionalIs := false
+	ast.Inspect(is.Decl.Body, func(n ast.Node) bool {
+		if be, ok := n.(*ast.BinaryExpr); ok && be.Op == token.NEQ {
+			x, y := core.ExprStr(be.X), core.ExprStr(be.Y)
+			if strings.HasSuffix(x, ".Struct.Fields[i].Name") && strings.HasSuffix(y, ".Struct.Fields[i].Name") {
+				positionalIs = true
+			}
+		}
+		return true
+	})
+	if !positionalIs {
+		c.OK("UB", key, arm.Pos(), 1, "Type.Is does not match object fields by position")
+		return
+	}
+	// first re-ordering construct in the arm: a sort call or a range over a map
+	reorder := token.NoPos
+	info := c.Prog.Func("octosql", "TypeSum").Info()
+	ast.Inspect(arm.Body, func(n ast.Node) bool {
+		switch v := n.(type) {
+		case *ast.CallExpr:
+			if strings.HasPrefix(core.ExprStr(v.Fun), "sort.") && (reorder == token.NoPos || v.Pos() < reorder) {
+				reorder = v.Pos()
+			}
+		case *ast.RangeStmt:
+			if _, isMap := info.TypeOf(v.X).Underlying().(*types.Map); isMap && (reorder == token.NoPos || v.Pos() < reorder) {
+				reorder = v.Pos()
+			}
+		}
+		return true
+	})
+	if reorder == token.NoPos {
+		c.OK("UB", key, arm.Pos(), 1, "the object arm neither sorts nor iterates a map: the operands' field order is kept")
+		return
+	}
+	// a positional comparison of the two name sequences, and a returning `if` before the re-ordering
+	compared, returnsEarly := token.NoPos, false
+	ast.Inspect(arm.Body, func(n ast.Node) bool {
+		if be, ok := n.(*ast.BinaryExpr); ok && (be.Op == token.NEQ || be.Op == token.EQL) {
+			x, y := core.ExprStr(be.X), core.ExprStr(be.Y)
+			if strings.HasPrefix(x, "t1.Struct.Fields[") && strings.HasSuffix(x, "].Name") && strings.HasPrefix(y, "t2.Struct.Fields[") && strings.HasSuffix(y, "].Name") && be.Pos() < reorder {
+				compared = be.Pos()
+			}
+		}
+		return true
+	})
+	for _, st := range arm.Body.List {
+		ifs, ok := st.(*ast.IfStmt)
+		if !ok || ifs.Pos() > reorder || compared == token.NoPos || ifs.Pos() < compared {
+			continue
+		}
+		hasReturn, reorders := false, false
+		ast.Inspect(ifs.Body, func(n ast.Node) bool {
+			switch v := n.(type) {
+			case *ast.ReturnStmt:
+				hasReturn = true
+			case *ast.CallExpr:
+				if strings.HasPrefix(core.ExprStr(v.Fun), "sort.") {
+					reorders = true
+				}
+			case *ast.RangeStmt:
+				if _, isMap := info.TypeOf(v.X).Underlying().(*types.Map); isMap {
+					reorders = true
+				}
+			}
+			return true
+		})
+		if hasReturn && !reorders {
+			returnsEarly = true
+		}
+	}
+	c.Decide(returnsEarly, "UB", key, arm.Pos(), 1, "operands with the same name sequence are merged by position before anything is re-ordered",
+		"TypeSum collects the fields of two objects in a map and emits them sorted by name, while Type.Is matches fields by position: TypeSum({b: Int; a: Int}, {b: Int; a: String}) = {a: Int | String; b: Int}, which neither operand Is; and the unnamed fields Value.Type() reports collapse into one ([{1,'x'},{2,NULL}] reports [{: NULL | String}])")
 }
